@@ -61,11 +61,9 @@ theorem C18_accepts_slice {α} (fp : Bytes) (datum : RState → Except DeErr α 
   have ht8 : List.take 8 fp = fp := by rw [← hfp, List.take_length]
   simp [hs, hlen, h10, hd, ht8]
 
-/-- Write then read (slice): the reader sees exactly the datum bytes the writer appended. -/
-theorem C18_write_read_slice {α} (fp datumBytes : Bytes) (hfp : fp.length = 8)
-    (datum : RState → Except DeErr α × RState) (s : RState) (hs : s.isSlice = true)
-    (hr : s.rest = [0xC3, 0x01] ++ fp ++ datumBytes) :
-    fromSingleObject fp datum s = datum { s with rest := datumBytes } :=
-  C18_accepts_slice fp datum s hs datumBytes hfp hr
+/- Write then read: `C18_write_read` (Theorems/C18full.lean) composes `C18_frame`,
+   `C01_roundtrip_impl` and `C18_accepts_slice` with the real `ser` and `de`.  (A former
+   `C18_write_read_slice` here had the statement and the proof of `C18_accepts_slice` and did not
+   mention the writer; it has been removed.) -/
 
 end Avro.Theorems
